@@ -156,6 +156,22 @@ P("C15",
                "maximality of the returned segments is not required, only the covered column set"])
 
 
+P("C09",
+  rc={"quick": (8, 30000, 100, 6), "thorough": (12, 400000, 100, 6)},
+  exh={"quick": 2, "thorough": 2},
+  fuzz={"quick": None, "thorough": (4, 300000, 2048)},
+  rule="circuits of 1..12 cells (sizes 0..6 / 0..200 / 0..40000, coordinates to 30 / 5000 / 2^22, all eight "
+       "orientations, fixed and movable) with 0..12 nets of degree 0..9 (repeated cells, pins inside, on the border "
+       "and outside the outline) entered through addNet or setNets (with empty nets); Circuit::hpwl, placedWidth/"
+       "Height, pinX/YOffset, isTurn compared with a 2x2-matrix reference; IncrNetModel x/y topologies over all "
+       "cells or a tape-ordered subset compared with a from-scratch one-axis HPWL after construction and after each "
+       "of 0..40 position updates. non-trivial = a net of degree >= 2 touches a rotated or mirrored cell and (no "
+       "updates or some update changed a net bound); distinct = hash of the circuit, subset and update count. "
+       "Exhaustive part: one cell (6 sizes) x 8 orientations x every pin offset in the outline +-1.",
+  assumptions=["position updates go to cells of the model, not to its fixed pseudo-cell",
+               "|coordinates| <= 2^22 so that int arithmetic on pin positions cannot overflow"])
+
+
 # ----------------------------------------------------------------------------
 def sh(cmd, **kw):
     return subprocess.run(cmd, stdout=subprocess.PIPE, stderr=subprocess.STDOUT, text=True, **kw)
